@@ -211,11 +211,31 @@ fn apply(
             } else {
                 (root_b, fb, root_a, fa)
             };
-            let loser_name = {
+            // The conflict-copy name may already be in use (an edited copy from an
+            // earlier conflict, a copy deleted on one side only, a user file): writing
+            // the loser there would destroy that content or fight the name's own
+            // planned action. Take the first name that holds nothing but the loser's
+            // content on either side - unless the archive says the absent side deleted
+            // it, in which case the name's own planned action is that delete.
+            let conflict_name = |k: u32| {
                 let mut n = rel.as_os_str().to_owned();
                 n.push(format!(".conflict-{host}-{}", short_hex(&lose_fp.blake3)));
+                if k > 0 {
+                    n.push(format!("-{k}"));
+                }
                 PathBuf::from(n)
             };
+            let usable = |n: &PathBuf| match (a.get(n), b.get(n)) {
+                (None, None) => true,
+                (Some(x), Some(y)) => x == lose_fp && y == lose_fp,
+                (Some(x), None) | (None, Some(x)) => x == lose_fp && common.get(n) != Some(lose_fp),
+            };
+            let mut k = 0;
+            let mut loser_name = conflict_name(k);
+            while !usable(&loser_name) {
+                k += 1;
+                loser_name = conflict_name(k);
+            }
             let win_full = win_root.join(rel); // winner content
             let lose_full = lose_root.join(rel); // loser content (about to be overwritten)
                                                  // 1. Preserve the loser as a conflict-copy on BOTH sides FIRST.
